@@ -254,3 +254,25 @@ int main(){ const int nfft=16; auto win = window::hann(nfft, true);   // symmetr
   int bad=0; for(int i=0;i<y.size();++i) if(!std::isfinite(y[i])){ if(!bad) std::printf("sample %d of %d is not finite\\n", i, y.size()); ++bad; }
   return bad?1:0; }
 '''
+
+
+@adapter(r'_welch<cmplx>.*label_matches_bin')
+def welch_labels(o):
+    return HDR + '''
+// C13: for a pure complex tone the maximum lies at the entry whose listed frequency is nearest the tone
+int main(){ const int nfft=64; int bad=0; double freqs[]={0.25,-0.25,0.109375,-0.4375};
+  for(double f0: freqs){ arr_cmplx x(4096); for(int i=0;i<x.size();++i) x[i]=cmplx_t{std::cos(2*pi*f0*i), std::sin(2*pi*f0*i)};
+    auto r = welch(x, window::hamming(nfft), nfft/2, nfft, SpectrumType::Psd); int k=argmax(r.pxx);
+    if(std::fabs(r.f[k]-f0) > 0.5/nfft + 1e-12){ std::printf("tone %g: peak labelled %g\\n", f0, r.f[k]); ++bad; } }
+  return bad?1:0; }
+'''
+
+
+@adapter(r'hilbert\(x\).*one_sided_weights')
+def hilbert_weights(o):
+    return HDR + '''
+// C14: the real part of hilbert(x) equals x (including DC and Nyquist content)
+int main(){ int bad=0; for(int n: {8, 9, 16}){ arr_real x(n); for(int i=0;i<n;++i) x[i] = 1.0 + ((i%2)?-0.5:0.5) + std::sin(0.9*i);
+    arr_cmplx h = hilbert(x); for(int i=0;i<n;++i) if(std::fabs(h[i].re - x[i]) > 1e-9){ if(!bad) std::printf("n=%d sample %d: re %g, x %g\\n", n, i, h[i].re, x[i]); ++bad; } }
+  return bad?1:0; }
+'''
